@@ -184,6 +184,20 @@ CLAIMED["C18"] = (
     "contradiction/ineffective-check detection, read-set (information-flow) analysis, table agreement over the kernel dialect, expanded-expression templates per path class (static analysis)",
     "DESIGN.md section 5, C18",
 )
+CLAIMED["C19"] = (
+    "Claimed for: print/parse agreement of StridePattern (keywords ub/ts/ss, order, field positions) and of "
+    "StreamerConfigurationAttr (keywords opts/temp/spat, coverage of every constructor field); exhaustiveness and name "
+    "uniqueness of the streamer-option registry; fold/drop conditions of StridePattern.canonicalize (fold only if last kept "
+    "bound*stride equals the stride, drop only bound 1); the fixpoint test of canonicalize_expr (idempotence shape); a "
+    "bounded identity test of every rewrite rule extracted from the four affine canonicalisers (each return, under the "
+    "path conditions on the input, evaluated on a grid of model expressions); pairing and or-reduction shape of "
+    "pack_bitlist. The identity test is bounded, not a proof; AffineTransform algebra and AccessPattern equivalence are "
+    "not decided here (C03 covers the schedule transformations). The unprinted streamer system type is a listed known "
+    "finding (F-15).",
+    WALKER_NOTE + " Rewrite rules are extracted per return site with SSA-like tracking of the re-assigned parameter; helper predicates in path conditions are not assumed.",
+    "printer/parser sibling agreement, registry tables, must-facts, bounded abstract evaluation of extracted rewrite rules (static analysis)",
+    "DESIGN.md section 5, C19",
+)
 NOT_APPLICABLE = {
     "C02": "address-stream equality is integer arithmetic over runtime strides/bounds; no structural necessary condition carries weight (DESIGN.md section 5, C02)",
 }
